@@ -63,11 +63,20 @@ LEAF_TAGS = [b't', b'b', b'B', b's', b'u', b'I', b'i', b'l', b'L', b'f',
              b'd', b'D', b'S', b'T', b'V', b'\x00', b'x']
 
 
+def _magic():
+    from . import magic
+    return magic.pool()
+
+
 def _wint(rnd, bits, signed):
-    if rnd.random() < 0.6:
-        return rnd.choice(gv.width_points(bits, signed))
     lo, hi = (-(1 << bits - 1), (1 << bits - 1) - 1) if signed \
         else (0, (1 << bits) - 1)
+    if rnd.random() < 0.07:
+        v = _magic().rint(rnd, lo, hi)
+        if v is not None:
+            return v
+    if rnd.random() < 0.6:
+        return rnd.choice(gv.width_points(bits, signed))
     if rnd.random() < 0.4:
         return rnd.randint(max(lo, -300), min(hi, 300))   # non-minimal width
     return rnd.randint(lo, hi)
@@ -94,7 +103,8 @@ def wleaf(rnd, w, tag, allow_refuse=True):
         w.put(struct.pack(fmt, v))
         return v
     if tag == b'L':
-        v = rnd.choice([0, 1, 2**63 - 1, 2**62, 2**32, rnd.getrandbits(63)])
+        v = rnd.choice([0, 1, 2**63 - 1, 2**62, 2**32, rnd.getrandbits(63),
+                        _magic().rint(rnd, 0, 2**63 - 1) or 0])
         w.put(struct.pack('>Q', v))
         return v
     if tag == b'f':
@@ -114,6 +124,10 @@ def wleaf(rnd, w, tag, allow_refuse=True):
             else rnd.randint(0, 255)
         raw = rnd.choice(gv.UNSCALED) if rnd.random() < 0.6 \
             else rnd.randint(-2**31, 2**31 - 1)
+        if rnd.random() < 0.1:
+            scale = _magic().rint(rnd, 0, 255) or scale
+        if rnd.random() < 0.1:
+            raw = _magic().rint(rnd, -2**31, 2**31 - 1) or raw
         w.put(struct.pack('>Bi', scale, raw))
         return D(raw).scaleb(-scale, decimal.Context(prec=400))
     if tag == b'S':
@@ -231,7 +245,25 @@ HOSTILE_NAMES = ['amq.*', 'näme', 'a' * 200, 'q\n', 'x' * 255, '\x00',
                  '{}', 'a\tb', 'É' * 127, '✈', 'name with "quotes"']
 
 
-def warg(rnd, w, spec, name, t, allow_refuse=True, force_tags=None):
+_FORCE_FMT = {'octet': '>B', 'short': '>H', 'long': '>I', 'longlong': '>Q'}
+
+
+def warg(rnd, w, spec, name, t, allow_refuse=True, force_tags=None,
+         force=NotImplemented):
+    if force is not NotImplemented:
+        if t in _FORCE_FMT:
+            w.put(struct.pack(_FORCE_FMT[t], force))
+            return force
+        if t == 'shortstr':
+            raw = force.encode('utf-8')
+            w.put(bytes([len(raw)]), 'str-len')
+            w.put(raw)
+            return force
+        if t == 'longstr':
+            raw = force.encode('utf-8')
+            w.put(struct.pack('>I', len(raw)), 'str-len')
+            w.put(raw)
+            return force
     if t == 'octet':
         v = _wint(rnd, 8, False)
         w.put(bytes([v]))
@@ -246,7 +278,8 @@ def warg(rnd, w, spec, name, t, allow_refuse=True, force_tags=None):
         return v
     if t == 'longlong':
         v = rnd.choice([0, 1, 2**63 - 1, 2**62, 2**32, 255,
-                        rnd.getrandbits(63)])
+                        rnd.getrandbits(63),
+                        _magic().rint(rnd, 0, 2**63 - 1) or 0])
         w.put(struct.pack('>Q', v))
         return v
     if t == 'shortstr':
@@ -312,11 +345,17 @@ def _finish(w, ftype, channel, **kw):
 
 
 def rchannel(rnd):
+    if rnd.random() < 0.05:
+        v = _magic().rint(rnd, 0, 65535)
+        if v is not None:
+            return v
     return rnd.choice([0, 1, 255, 256, 32767, 32768, 65535]) \
         if rnd.random() < 0.5 else rnd.randint(0, 65535)
 
 
-def method_frame(rnd, spec, allow_refuse=True, force_tags=None):
+def method_frame(rnd, spec, allow_refuse=True, force_tags=None,
+                 force_vals=None, channel=None):
+    force_vals = force_vals or {}
     w = W()
     w.put(struct.pack('>HH', spec.class_id, spec.method_id), 'method-index')
     exp = {}
@@ -329,6 +368,8 @@ def method_frame(rnd, spec, allow_refuse=True, force_tags=None):
                 w.put(b'\0', 'bit-octet')
                 bitpos = 0
             b = rnd.random() < 0.5
+            if n in force_vals:
+                b = bool(force_vals[n])
             exp[n] = b
             if b:
                 w.b[at] |= 1 << bitpos
@@ -337,10 +378,12 @@ def method_frame(rnd, spec, allow_refuse=True, force_tags=None):
             if bitpos is not None:
                 _unused_bits(rnd, w, at, bitpos)
             bitpos = None
-            exp[n] = warg(rnd, w, spec, n, t, allow_refuse, force_tags)
+            exp[n] = warg(rnd, w, spec, n, t, allow_refuse, force_tags,
+                          force_vals.get(n, NotImplemented))
     if bitpos is not None:
         _unused_bits(rnd, w, at, bitpos)
-    return _finish(w, 1, rchannel(rnd), kind='method', index=spec.index,
+    return _finish(w, 1, rchannel(rnd) if channel is None else channel,
+                   kind='method', index=spec.index,
                    name=spec.name, expected=exp)
 
 
@@ -351,7 +394,8 @@ def _unused_bits(rnd, w, at, used):
 
 def header_frame(rnd, allow_refuse=True, mask=None, continuation=False):
     w = W()
-    size = rnd.choice([0, 1, 2**32, 2**63, 2**64 - 1, rnd.getrandbits(64)])
+    size = rnd.choice([0, 1, 2**32, 2**63, 2**64 - 1, rnd.getrandbits(64),
+                       _magic().rint(rnd, 0, 2**64 - 1) or 0])
     w.put(struct.pack('>HHQ', 60, 0, size))
     if mask is None:
         mask = rnd.getrandbits(14)
@@ -394,7 +438,15 @@ def body_frame(rnd, n=None):
     w = W()
     n = n if n is not None else rnd.choice([1, 2, 7, 8, 255, 256,
                                             rnd.randint(1, 400)])
+    if rnd.random() < 0.06:
+        n = _magic().rint(rnd, 1, 9000) or n
     raw = bytearray(rnd.randbytes(n))
+    if rnd.random() < 0.06:
+        m = _magic().rbytes(rnd)
+        if m:
+            at = rnd.choice([0, 0, max(0, n - len(m)), rnd.randint(0, n)])
+            raw[at:at + len(m)] = m
+            n = len(raw)
     if n and rnd.random() < 0.3:
         raw[rnd.randrange(n)] = 0xCE
     if n and rnd.random() < 0.15:
@@ -413,6 +465,9 @@ def heartbeat_frame(rnd):
 
 def protocol_header(rnd):
     v = (rnd.randint(0, 255), rnd.randint(0, 255), rnd.randint(0, 255))
+    if rnd.random() < 0.3:
+        o = _magic().octets
+        v = tuple(rnd.choice(o) if rnd.random() < 0.8 else x for x in v)
     data = b'AMQP\x00' + bytes(v)
     return Frame(kind='protocol', data=data, channel=0, expected=v,
                  fields=[(5, 1, 'version'), (6, 1, 'version'),
@@ -435,3 +490,25 @@ def any_frame(rnd, allow_refuse=False):
 
 TABLE_METHODS = [i for i, m in refspec.METHODS.items()
                  if 'table' in m.arg_types]
+
+
+def magic_method_frames(rnd, spec):
+    """One-factor-at-a-time: every constant of the tree under test, in every
+    argument position whose wire type can carry it (names and deprecated
+    fields included: nothing is validated on receive)."""
+    mp = _magic()
+    rng = {'octet': (0, 255), 'short': (0, 65535), 'long': (0, 2**32 - 1),
+           'longlong': (0, 2**63 - 1)}
+    for n, t, _ in spec.args:
+        if t in rng:
+            for c in mp.ints_in(*rng[t]):
+                yield method_frame(rnd, spec, False, None, {n: c})
+        elif t == 'shortstr':
+            for m in mp.strs:
+                if len(m.encode('utf-8')) <= 255:
+                    yield method_frame(rnd, spec, False, None, {n: m})
+        elif t == 'longstr':
+            for m in mp.strs:
+                yield method_frame(rnd, spec, False, None, {n: m})
+    for c in mp.ints_in(0, 65535):
+        yield method_frame(rnd, spec, False, None, None, channel=c)
